@@ -169,6 +169,7 @@ func (b *StatefulBlock[I, O, A]) accept(ctx context.Context, parentAccepted A) e
 	if err != nil {
 		return err
 	}
+	verifhook.YieldK("snow.accept.beforeNotify", b.Input.GetHeight())
 	b.Accepted = acceptedBlk
 	b.accepted = true
 
